@@ -54,6 +54,9 @@ func Truth() map[string]string {
 		m[p.Path] = p.Name
 	}
 	m["g.com/vend"] = "vend"
+	// two vendored copies of one package, with different names, and no exact entry for it
+	m["m1/vendor/v.io/dup"] = "dupa"
+	m["m2/vendor/v.io/dup"] = "dupb"
 	return m
 }
 
